@@ -138,6 +138,11 @@ def eps_of(dtype):
   return float(np.finfo(dtype).eps)
 
 
+def tiny_of(dtype):
+  """Smallest normal number: absolute slack for underflow to subnormals."""
+  return float(np.finfo(dtype).tiny)
+
+
 def tol_feature(p, x, dtype):
   """|feature - reference| allowed at value x (casts of x, lo, hi included)."""
   eps = eps_of(dtype)
@@ -184,7 +189,7 @@ def tol_value(p, x, dtype, scaled):
   m = max(abs(lo), abs(hi), hi - lo)
   s = scale_of(p)
   if not scaled or s == 'LINEAR' or lo == hi:
-    return 4 * eps * m
+    return 4 * eps * m + tiny_of(dtype)
   ll = abs(math.log(lo)) + abs(math.log(hi))
   if s == 'LOG':
     return K * eps * (1.0 + ll) * abs(float(x))
